@@ -28,14 +28,14 @@ FLAVORS = {
     # data-plane harnesses: ASan+UBSan, NDEBUG like the shipped build
     "data": dict(cxx="clang++", flags=["-std=gnu++17", "-O1", "-g",
                                         "-fsanitize=address,undefined",
-                                        "-fno-sanitize=alignment,vptr,function",
+                                        "-fno-sanitize=alignment,vptr,function,null,pointer-overflow",
                                         "-fno-sanitize-recover=undefined",
                                         "-DNDEBUG", "-Wno-everything"],
                  ld=["-fsanitize=address,undefined"]),
     # libFuzzer targets
     "fuzz": dict(cxx="clang++", flags=["-std=gnu++17", "-O1", "-g",
                                         "-fsanitize=fuzzer-no-link,address,undefined",
-                                        "-fno-sanitize=alignment,vptr,function",
+                                        "-fno-sanitize=alignment,vptr,function,null,pointer-overflow",
                                         "-fno-sanitize-recover=undefined",
                                         "-DNDEBUG", "-Wno-everything"],
                  ld=["-fsanitize=fuzzer,address,undefined"]),
